@@ -138,6 +138,9 @@ def _adjoint_of(right: ast.AST, left: ast.AST) -> bool:
     return txt in forms
 
 
+MIRROR_WITHOUT_CONJ: list = []
+
+
 def attenuator_weight(idx):
     """(attenuator FuncInfo, the `+=` update, weight(swap) -> sympy, symbols n, m, k, theta): the weight with which the Fock attenuator
     maps rho[n, m] to rho[n-k, m-k], read from the step by roles (not by the names of its locals)."""
@@ -151,6 +154,22 @@ def attenuator_weight(idx):
               and x.targets[0].attr == "_density_matrix" for y in ast.walk(x.value) if isinstance(y, ast.Name)]
     upd = [x for x in ast.walk(att.node) if isinstance(x, ast.AugAssign) and isinstance(x.target, ast.Subscript)
            and isinstance(x.target.value, ast.Name) and x.target.value.id in stored]
+    upd = sorted(upd, key=lambda x: x.lineno)
+    MIRROR_WITHOUT_CONJ.clear()
+    if len(upd) > 1:
+        # further updates are accepted as the mirror fill of the primary one: swapped (ket, bra) index and the complex conjugate of the value
+        prim = upd[0]
+        pi = prim.target.slice.elts if isinstance(prim.target.slice, ast.Tuple) else None
+        for extra in upd[1:]:
+            ei = extra.target.slice.elts if isinstance(extra.target.slice, ast.Tuple) else None
+            swapped = pi is not None and ei is not None and len(pi) == len(ei) == 2 and norm(pi[0]) == norm(ei[1]) and norm(pi[1]) == norm(ei[0])
+            if not swapped:
+                raise AnalysisError("C08b: the attenuator has several `<new density matrix>[...] += weight` updates that are not a mirror fill (undecided)")
+            v, pv = norm(extra.value).replace(" ", ""), norm(prim.value).replace(" ", "")
+            conj = v in (f"np.conj({pv})", f"np.conjugate({pv})", f"{pv}.conj()", f"{pv}.conjugate()", f"({pv}).conj()", f"({pv}).conjugate()")
+            if not conj:
+                MIRROR_WITHOUT_CONJ.append(extra)
+        upd = upd[:1]
     if len(upd) != 1:
         raise AnalysisError("C08b: the attenuator no longer has one `<new density matrix>[...] += weight` update (undecided)")
     defs = {}
@@ -373,6 +392,10 @@ def clause_b(ctx: Context, idx) -> None:
     else:
         # the documentation was reworded: nothing to compare the weight with here (C01d compares it with the Gaussian channel)
         ctx.instance("C08b", f"{att.qualname}|attenuator-weight-as-documented", "not compared: the docstring does not state the formula in the transcribed form")
+    for extra in list(MIRROR_WITHOUT_CONJ):
+        site(att, extra, "mirror-fill-conjugate", False,
+             f"`{norm(extra)[:80]}` fills the mirrored entry rho[bra, ket] with the same value as rho[ket, bra], without the complex conjugate: "
+             f"coherences with a complex amplitude come out non-Hermitian")
     ok = sp.simplify(w1 - sp.conjugate(w2)) == 0
     site(att, upd[0], "attenuator-weight-hermitian", ok, f"the weight {w1} of rho[n, m] is not the conjugate of the weight of rho[m, n]")
     ctx.require_floor("density-matrix update sites classified", n_sites, 8)
